@@ -480,6 +480,9 @@ class Evaluator:
             param_reaches = name in self._params and self._param_reaches(name, at, restrict)
             if param_reaches:
                 terms.append((-1, self._param(name)))
+            elif self.exact and name not in self._params and ds and self._param_reaches(name, at, restrict):
+                # exact mode: a path on which the local is not bound at all is an alternative of its own (NameError)
+                terms.append((-1, self.ctx.mk(("unbound", name))))
             for d in sorted(ds or ()):
                 if d not in fds:
                     # arrives only by going round a loop: loop-carried value, kept abstract (canonical cut)
@@ -506,6 +509,23 @@ class Evaluator:
         if self.parent is not None and (name in self.parent._local_names or name in self.parent._params):
             return self.parent._name(name, self.parent_at, None)
         return self._global(name)
+
+    _TRUTH_CALLS = {"isinstance", "issubclass", "callable", "hasattr", "all", "any", "bool", "np.all", "np.any", "np.array_equal",
+                    "np.allclose", "np.isclose", ".any", ".all", ".startswith", ".endswith", ".isalpha", ".isdigit", ".allclose", ".is_integer"}
+
+    def _is_truth_value(self, t):
+        h = self.ctx.head_of(t)
+        if not h:
+            return False
+        if h[0] in ("cmp", "not", "and", "or"):
+            return True
+        if h[0] == "const":
+            return isinstance(h[1], bool)
+        if h[0] == "call":
+            return h[1] in self._TRUTH_CALLS
+        if h[0] == "gphi":
+            return all(self._is_truth_value(x) for x in self.ctx.args_of(t)[1::2])
+        return False
 
     def _condition_nodes(self):
         """ids of the and/or/not nodes that make up the tests of if / while / conditional expressions / comprehension
@@ -725,6 +745,8 @@ class Evaluator:
                     prev = self._name_before(name, node, restrict)
                     rhs = self._t(st.value, node, restrict)
                     res = self._binop(st.op, prev, rhs)
+                elif how == "outcall":
+                    res = self._t(payload, node, restrict)
                 elif how == "def":
                     # several nested definitions may share one name (bound under different conditions): the symbol says
                     # which one - name, name#2, name#3 in source order (the convention of Repo.funcs)
@@ -776,17 +798,24 @@ class Evaluator:
                 it = args[path.pop(0)]
                 h = self.ctx.head_of(it)
                 # element of that operand
-                res = self.ctx.mk(("iter", ()), (it,), None)
-                return self._project_iter(res, path)
+                return self._project_iter(self._each(it), path)
             if fname == "enumerate" and isinstance(path[0], int) and len(args) >= 1:
                 k = path.pop(0)
                 if k == 0:
                     res = self.ctx.mk(("index",), (args[0],))
                     return self._project_iter(res, path)
-                res = self.ctx.mk(("iter", ()), (args[0],))
-                return self._project_iter(res, path)
+                return self._project_iter(self._each(args[0]), path)
             break
-        return self._project_iter(self.ctx.mk(("iter", ()), (it,)), path)
+        return self._project_iter(self._each(it), path)
+
+    def _each(self, it):
+        """the abstract element of iterable `it`; the element of `[g(x) for x in A]` (one loop, no filter) is g(element of A)"""
+        h = self.ctx.head_of(it)
+        if h and h[0] == "seqcomp" and h[1] == 1:
+            ar = self.ctx.args_of(it)
+            if self.ctx.head_of(ar[1]) == ("gen", 0):
+                return ar[0]
+        return self.ctx.mk(("iter", ()), (it,))
 
     def _project_iter(self, res, path):
         for p in path:
@@ -866,8 +895,12 @@ class Evaluator:
             return self._not(x)
         if isinstance(e, ast.BoolOp):
             if self.exact and id(e) not in self._condition_nodes():
-                # `a or b` as a VALUE is the first truthy operand: the order matters
-                return c.mk(("boolop", "and" if isinstance(e.op, ast.And) else "or"), [T(v) for v in e.values])
+                # `a or b` as a VALUE is the first truthy operand: the order matters - unless every operand is a truth
+                # value anyway (comparisons, type tests, ...), then it is the connective
+                vals = [T(v) for v in e.values]
+                if all(self._is_truth_value(x) for x in vals):
+                    return self._bool("and" if isinstance(e.op, ast.And) else "or", vals)
+                return c.mk(("boolop", "and" if isinstance(e.op, ast.And) else "or"), vals)
             return self._bool("and" if isinstance(e.op, ast.And) else "or", [T(v) for v in e.values])
         if isinstance(e, ast.Compare):
             parts = []
@@ -970,7 +1003,7 @@ class Evaluator:
                 env[name] = ev._iter_elem(it, path)
             ev = ev.with_bound(env)
             conds = [ev._t(x, at, R) for x in g.ifs]
-            gens.append(c.mk(("gen", len(conds)), [it] + conds))
+            gens.append(c.mk(("gen", len(conds)), [self._zip_base(it)] + conds))
         if isinstance(e, ast.DictComp):
             elt = c.mk(("item",), (ev._t(e.key, at, R), ev._t(e.value, at, R)))
             kind = "dictcomp"
@@ -978,6 +1011,25 @@ class Evaluator:
             elt = ev._t(e.elt, at, R)
             kind = {"ListComp": "seqcomp", "GeneratorExp": "seqcomp", "SetComp": "setcomp"}[type(e).__name__]
         return c.mk((kind, len(gens)), [elt] + gens)
+
+    def _zip_base(self, it):
+        """zip(A, [g(x) for x in A], A ...) runs exactly over A: as a loop range it IS A (the elements were bound through
+        the zip already)"""
+        c = self.ctx
+        h = c.head_of(it)
+        if not (h and h[0] == "call" and h[1] == "zip" and not (len(h) > 3 and h[3])):
+            return it
+        base = None
+        for x in c.args_of(it):
+            hx = c.head_of(x)
+            b = x
+            if hx and hx[0] == "seqcomp" and hx[1] == 1 and c.head_of(c.args_of(x)[1]) == ("gen", 0):
+                b = c.args_of(c.args_of(x)[1])[0]
+            if base is None:
+                base = b
+            elif not c.eq(base, b):
+                return it
+        return base if base is not None else it
 
     def _index(self, s, at, R):
         saved = self._keep_seq
@@ -1087,8 +1139,15 @@ class Evaluator:
                 flat.append(p)
         uniq = []
         for p in flat:
+            hp = c.head_of(p)
+            if hp and hp[0] == "const" and isinstance(hp[1], bool):
+                if hp[1] is (kind == "and"):
+                    continue                      # the neutral element
+                return c.mk(("const", hp[1]))     # the absorbing element
             if not any(c.eq(p, u) for u in uniq):
                 uniq.append(p)
+        if not uniq:
+            return c.mk(("const", kind == "and"))
         if len(uniq) == 1:
             return uniq[0]
         uniq.sort(key=lambda r: r.key())
